@@ -400,6 +400,26 @@ PROPS["C19"] = {
     },
 }
 
+PROPS["C20"] = {
+    "builds": ["chk", "rel"],
+    "shards": 8,
+    "timeout": 3600,
+    "rule": ("rounds of 8 worker threads x 600 (thorough 1500) convenience-API calls each against the process-wide TZ_PROVIDER (one process per shard, so the cache starts cold in each), over 40 "
+             "zones chosen to collide under truncation, basename or case (America/Indiana/*, America/Argentina/*, US/* vs Canada/*, Brazil/West vs Australia/West) and instants around "
+             "transitions: accessors, add, until (also failing: other zone with a date unit, smallest > largest), to_ixdtf_string, Display, from_str, start_of_day, Duration::total with a "
+             "zoned relativeTo, Instant::to_ixdtf_string, PlainDateTime::to_zoned_date_time, an unknown zone; a chaos thread holds the provider lock for 20 us..2.5 ms at random moments "
+             "and, in every second round, panics while holding it (verif_hooks). Every call's outcome is compared with the same call on a provider owned by the calling thread alone; "
+             "five single-threaded calls after each round check that nothing stays broken; a monitor on per-thread step counters reports a stall when no call completes for 90 s while "
+             "work remains. Recorded: calls, thread switches in the completion order, distinct 96-call completion-order prefixes (interleavings), injected panics"),
+    "assumptions": ["what a call 'returns alone' is the provider-taking twin on a thread-owned FsTzdbProvider (its answers do not depend on history: C15)",
+                    "a stall is judged on logical progress counters with a 90 s window (each call takes microseconds), not on a deadline for the whole workload"],
+    "manifest": {
+        "technique": "runtime monitoring: multi-threaded stress with contention and panic injection through hooks, per-call comparison with a thread-owned provider, logical-progress stall monitor; completion orders recorded",
+        "text": "Threads call the convenience API concurrently over colliding and cold/warm zones while a chaos thread injects lock contention and panics that happen while the shared provider is held. Each call's result is compared with the same operation on a provider the thread owns alone, calls after faults must still succeed, and a progress monitor turns a wedged provider into a reported stall. Evidence records the number of calls, thread switches and distinct completion-order prefixes observed. Holds on the interleavings produced; not an exploration of all schedules.",
+        "note": "The code under test contains no unsafe code on this path (a Mutex around a RefCell cache), so a race detector has nothing to flag unless a change introduces unsafe; see DESIGN.md for the ThreadSanitizer leg's status.",
+    },
+}
+
 
 NOT_CLAIMED = {}
 
